@@ -304,6 +304,7 @@ class Aggregator(object):
         self.faults = {}
         self.sim_seconds = 0.0
         self.samples = []
+        self._scored = []
         self.others = {}
         self.by_profile = {}
         self.extra = {}
@@ -327,10 +328,13 @@ class Aggregator(object):
         for k, v in res.get('faults', {}).items():
             self.faults[k] = self.faults.get(k, 0) + v
         self.sim_seconds += res.get('sim_seconds', 0)
-        if len(self.samples) < 4 and res.get('sample'):
-            self.samples.append({'seed': res['seed'],
-                                 'profile': res['profile'],
-                                 'history': res['sample']})
+        if res.get('sample'):
+            self._scored.append((res.get('sample_score', 0), self.runs, {
+                'seed': res['seed'], 'profile': res['profile'],
+                'history': res['sample']}))
+            self._scored.sort(key=lambda x: (-x[0], x[1]))
+            del self._scored[4:]
+            self.samples = [x[2] for x in self._scored]
 
     def other_property(self, f):
         k = '%s %s' % ('/'.join(f['tags']), f['rule'])
